@@ -297,6 +297,9 @@ def transmission_failures(n, seed, limit=3):
             span = tmax + d * wmax * 1e-10 / h_over_m
             opens = np.sort(rng.uniform(-0.1 * span, span, nw))
             closes = opens + rng.uniform(0.02, 0.6, nw) * span / nw
+            if rng.random() < 0.5:      # the windows of a chopper need not be listed in ascending time order
+                perm = rng.permutation(nw)
+                opens, closes = opens[perm], closes[perm]
             chs.append(cc.Chopper(distance=sc.scalar(d, unit='m'), time_open=sc.array(dims=['w'], values=opens, unit='s'), time_close=sc.array(dims=['w'], values=closes, unit='s')))
         desc = {'id': f'case{i}', 'index': i, 'seed': seed, 'n_choppers': nch}
         try:
@@ -388,5 +391,11 @@ def bounded_transmission(chk):
 
 
 def replay(rec):
+    f = rec.get('meta', {}).get('replay') or (rec.get('model') if isinstance(rec.get('model'), dict) else None) or {}
+    if '/bounded/' in rec['obligation'] and 'index' in f:
+        n = int(f['index']) + 1
+        fails = transmission_failures(n, int(f.get('seed', 80)), limit=10 ** 6)
+        hit = [x for x in fails if x['id'] == f.get('id')]
+        return {'reproduced': bool(hit), 'cases': hit[:1]}
     fails = transmission_failures(400, 80, limit=2)
     return {'reproduced': bool(fails), 'cases': fails[:2]}
